@@ -185,7 +185,7 @@ def programs(tier):
     fam['reply-before-okay'] = (progs, {'okay-order': 2})
     # (h) short writes
     progs = [{'cfg': scen.ops_cfg('two', 4096), 'wcap': True, 'steps': [con, scen.op_tuple('shell'), scen.op_tuple('push', 5000), scen.op_tuple('stat')]}]
-    fam['short-writes'] = (progs, {'wcap': 1 if tier == 'quick' else 2})
+    fam['short-writes'] = (progs, {'wcap': 2 if tier == 'quick' else 3})
     return fam
 
 
